@@ -162,6 +162,17 @@ def run(chk, tier, seed):
                 chk.violation(sig, f'{what}: attribute {attr} of the inner WcRegexp can be assigned (not immutable)', None)
             except AttributeError:
                 pass
+    # != is the negation of == for every pair, in particular for matchers that differ in one constructor field only
+    pairs = [(glob.compile('**/x', flags=glob.G | glob.P), glob.compile('**/x', flags=glob.G | glob.P | glob.L), 'FOLLOW'),
+             (glob.compile('**/x', flags=glob.G), glob.compile('**/x', flags=glob.G | glob.P), 'REALPATH'),
+             (glob.compile('*', flags=0), fnmatch.compile('*', flags=0), 'path mode'), (fnmatch.compile('a', exclude='b'), fnmatch.compile('a'), 'exclude'),
+             (fnmatch.compile('a'), fnmatch.compile('a'), 'nothing')]
+    for o1, o2, what2 in pairs:
+        m += 1
+        same = what2 == 'nothing'
+        if (o1 == o2) != same or (o1 != o2) != (not same) or (same and hash(o1) != hash(o2)):
+            chk.violation(dict(obligation='C19.bounded.matcher_objects', call=f'pair differing in {what2}', witness=what2),
+                          f'matchers differing in {what2}: == gives {o1 == o2}, != gives {o1 != o2} (expected == {same}, != {not same})', None)
     strs = [(w, o) for w, o in objs if "b'" not in w and 'glob.P' not in w]
     for i, (w1, o1) in enumerate(strs):
         for w2, o2 in strs[i + 1:]:
